@@ -173,7 +173,16 @@ func isComment(s []byte) bool {
 
 func (p *programSplitter) readProgram() Program {
 	var prog Program
-	for !p.eof {
+	for {
+		// Blank lines may precede a change header. (These can only be
+		// at the top of the file: blank lines after a change belong to
+		// its patch.)
+		for !p.eof && len(bytes.TrimSpace(p.text)) == 0 {
+			p.next()
+		}
+		if p.eof {
+			break
+		}
 		prog = append(prog, p.readChange())
 	}
 	if len(prog) == 0 {
